@@ -434,7 +434,7 @@ class RiscvParser(Parser):
                 elif line_parsed.type.type == "zero":
                     num_words = int(line_parsed.get("value"))
                     self.variables.update(
-                        {line_parsed.get("name"): (address_counter, 4 * num_words)}
+                        {line_parsed.get("name"): (address_counter, 4)}
                     )
                     address_counter += 4 * num_words
 
